@@ -46,10 +46,14 @@ fn one_shot_family(ctx: &Ctx) -> fw::Stats {
             if !out.errors.is_empty() {
                 st.nontrivial_hash(fw::mix(fw::fnv(bytes), 7000 + part as u64));
             }
-            let r = fw::catch(|| {
-                let (c, had) = enc.decode_without_bom_handling(bytes);
-                (c.into_owned(), had)
-            });
+            let r = {
+                let d = crate::guard::Desc { what: "Encoding::decode_without_bom_handling (one-shot)", encoding: enc.name(), data: bytes.as_ptr(), len: bytes.len() };
+                let _g = crate::guard::enter(&d);
+                fw::catch(|| {
+                    let (c, had) = enc.decode_without_bom_handling(bytes);
+                    (c.into_owned(), had)
+                })
+            };
             let bad = match r {
                 Err(p) => Some(format!("decode_without_bom_handling panicked: {}", p)),
                 Ok((text, had)) => {
@@ -84,10 +88,14 @@ fn one_shot_family(ctx: &Ctx) -> fw::Stats {
                 st.nontrivial_hash(fw::mix(h.hash(), 9000 + part as u64));
             }
             let s: String = h.text.iter().map(|c| char::from_u32(*c).unwrap_or('\u{FFFD}')).collect();
-            let r = fw::catch(|| {
-                let (c, _, had) = enc.encode(&s);
-                (c.into_owned(), had)
-            });
+            let r = {
+                let d = crate::guard::Desc { what: "Encoding::encode (one-shot), input is the text as UTF-8", encoding: enc.name(), data: s.as_ptr(), len: s.len() };
+                let _g = crate::guard::enter(&d);
+                fw::catch(|| {
+                    let (c, _, had) = enc.encode(&s);
+                    (c.into_owned(), had)
+                })
+            };
             let bad = match r {
                 Err(p) => Some(format!("Encoding::encode panicked: {}", p)),
                 Ok((bytes, had)) => {
